@@ -144,7 +144,7 @@ package cache
 //@   modifies sc.cache.*, sc.cache.items[*], ghost(llen), ghost(lat), ghost(lpos), ghost(lof), heap(list.Element), heap(Entry)
 //@   ensures[C05.put-wf] scWF(sc) && sc.enabled == old(sc.enabled) && sc.cache == old(sc.cache) && sc.cache.items == old(sc.cache.items)
 //@   ensures[C05.put-skip] !sc.enabled || len(results) == 0 ==> len(sc.cache.items) == old(len(sc.cache.items)) && (forall k string :: ((k in sc.cache.items) <==> old(k in sc.cache.items)) && sc.cache.items[k] == old(sc.cache.items[k]))
-//@   ensures[C05.put-stores-copy] sc.enabled && len(results) > 0 ==> (cacheKey(query, options) in sc.cache.items) && istype(entOf(sc.cache.items[cacheKey(query, options)]).Value, []SearchResult) && len(astype(entOf(sc.cache.items[cacheKey(query, options)]).Value, []SearchResult)) == len(results) && fresh(astype(entOf(sc.cache.items[cacheKey(query, options)]).Value, []SearchResult)) && (forall j int :: 0 <= j && j < len(results) ==> astype(entOf(sc.cache.items[cacheKey(query, options)]).Value, []SearchResult)[j] == results[j])
+//@   ensures[C05.put-stores-copy+C12.put-stores-copy] sc.enabled && len(results) > 0 ==> (cacheKey(query, options) in sc.cache.items) && istype(entOf(sc.cache.items[cacheKey(query, options)]).Value, []SearchResult) && len(astype(entOf(sc.cache.items[cacheKey(query, options)]).Value, []SearchResult)) == len(results) && fresh(astype(entOf(sc.cache.items[cacheKey(query, options)]).Value, []SearchResult)) && (forall j int :: 0 <= j && j < len(results) ==> astype(entOf(sc.cache.items[cacheKey(query, options)]).Value, []SearchResult)[j] == results[j])
 
 //@ func (*SearchCache).Invalidate
 //@   requires scWF(sc)
